@@ -1,6 +1,7 @@
 """C16 - richness and overlap estimators follow their closed forms for every count vector."""
 from __future__ import annotations
 
+import copy
 import numpy as np
 
 from .. import estim
@@ -58,6 +59,15 @@ def judge_fof(ctx, n, res, rp):
             ctx.violation(f"chao/{cont}/argument_mutated", f"a chao function modified its count vector {keep} -> {list(c)}", rp)
 
 
+def same_coll(x, y):
+    import pandas as pd
+    if isinstance(x, pd.Series):
+        return x.equals(y) and list(x.index) == list(y.index)
+    if isinstance(x, np.ndarray):
+        return x.shape == y.shape and x.dtype == y.dtype and all((u == v) or (u != u and v != v) for u, v in zip(x.tolist(), y.tolist()))
+    return type(x) is type(y) and (x == y or repr(x) == repr(y))
+
+
 def judge_sets(ctx, a, b, res, rp, variant):
     import pyrepseq as prs
     vals = VALS[variant % len(VALS)]
@@ -65,11 +75,16 @@ def judge_sets(ctx, a, b, res, rp, variant):
         A, B = coll(a, cont, vals, variant), coll(b, cont, vals, variant + 1)
         has_missing = 0 in a or 0 in b
         desc = f"({cont} {a}, {cont} {b}) [0 = missing]"
+        snap = (copy.deepcopy(A), copy.deepcopy(B))
         check(ctx, "overlap" + desc, lambda: prs.overlap(A, B), res["overlap"], f"overlap/{cont}", rp)
         check(ctx, "overlap_coefficient" + desc, lambda: prs.overlap_coefficient(A, B), res["coef"], f"overlap_coefficient/{cont}", rp)
         # jaccard_index: missing values are documented to be dropped inside Series only; empty union excluded
         if not estim.is_nan_rat(res["jaccard"]) and (cont == "series" or not has_missing):
             check(ctx, "jaccard_index" + desc, lambda: prs.jaccard_index(A, B), res["jaccard"], f"jaccard_index/{cont}", rp)
+            # the caller's collections are used again afterwards, the other way round
+            check(ctx, "jaccard_index swapped, same objects again " + desc, lambda: prs.jaccard_index(B, A), res["jaccard"], f"jaccard_index/{cont}/reuse", rp)
+        if not (same_coll(A, snap[0]) and same_coll(B, snap[1])):
+            ctx.violation(f"overlap_family/{cont}/argument_mutated", f"overlap / overlap_coefficient / jaccard_index changed a caller's collection {desc}: {snap} -> {(A, B)}"[:500], rp)
     if not estim.is_nan_rat(res["jaccard"]):
         for ca, cb in (("series", "list"), ("list", "series"), ("series", "set"), ("ndarray", "series")):
             # the non-Series side must not hold a missing value (documented behaviour)
